@@ -4,6 +4,7 @@ import Prom.Drv.Vec
 import Prom.Drv.Reg
 import Prom.Drv.Local
 import Prom.Drv.Timer
+import Prom.Drv.Fall
 /- Line-protocol driver: one request per line on stdin, one result per line on stdout. -/
 open Prom Prom.Drv
 
@@ -19,6 +20,9 @@ def step (st : DState) (line : String) : DState × String :=
   | ["case"] => ({}, "case")
   | "hist" :: args => (st, histHandle args)
   | "desc" :: args => (st, descHandle args)
+  | "fall" :: "lin" :: args => (st, clsOfText (histHandle ("lin" :: args)))
+  | "fall" :: "exp" :: args => (st, clsOfText (histHandle ("exp" :: args)))
+  | "fall" :: args => (st, fallHandle args)
   | "timer" :: args => let (v, o) := timerHandle st.tw args; ({ st with tw := v }, o)
   | "local" :: args => let (v, o) := localHandle st.loc args; ({ st with loc := v }, o)
   | "reg" :: args => let (v, o) := regHandle st.reg args; ({ st with reg := v }, o)
